@@ -20,7 +20,8 @@ func init() { register("C03", c03) }
 type lexFinding struct {
 	Sig     string `json:"sig"`
 	Count   int64  `json:"count"`
-	Example string `json:"example"`
+	Example string `json:"-"`
+	Raw     []byte `json:"example_raw"`
 }
 
 type lexSummary struct {
@@ -35,7 +36,7 @@ type lexSummary struct {
 
 func c03(x *ctx) {
 	r := x.run
-	r.Rule = "every string over the 50-rune alphabet (one representative per lexer branch, incl. NUL, U+FFFD, non-ASCII blanks) up to the length bound, " +
+	r.Rule = "every string over the 50-rune alphabet (one representative per lexer branch, incl. NUL, U+FFFD, non-ASCII blanks) up to the length bound, every string over the 65-atom wide alphabet (the 50 runes plus non-ASCII decimal digits, upper-case letter, symbol, astral rune, U+2028/2029, BOM, DEL, VT, FF, combining mark and three ill-formed byte sequences) up to its shorter bound, " +
 		"each also with a final newline, plus every rune prefix of every corpus program; each string is fed to the real lexer.Advance loop and the real parser.Read loop; " +
 		"non-trivial = the string produced at least one token"
 	r.Assumptions = []string{"strings longer than the bound are covered only through corpus prefixes", "rune alphabet chosen by reading lexer.Advance: one representative per case label and helper predicate"}
@@ -45,9 +46,12 @@ func c03(x *ctx) {
 	}
 	var jobs []job
 	n := 16
-	lenR50, lenR30 := 4, 0
+	lenR50, lenR30, lenWide := 4, 0, 3
 	if x.tier == "thorough" {
-		lenR50, lenR30 = 5, 6
+		lenR50, lenR30, lenWide = 5, 6, 4
+	}
+	for i := 0; i < n; i++ {
+		jobs = append(jobs, job{[]string{"-len", fmt.Sprint(lenWide), "-alphabet", "wide", "-shard", fmt.Sprint(i), "-nshard", fmt.Sprint(n)}, "wide"})
 	}
 	for i := 0; i < n; i++ {
 		jobs = append(jobs, job{[]string{"-len", fmt.Sprint(lenR50), "-alphabet", "r50", "-shard", fmt.Sprint(i), "-nshard", fmt.Sprint(n)}, "r50"})
@@ -70,7 +74,7 @@ func c03(x *ctx) {
 	for i := 0; i < n; i++ {
 		jobs = append(jobs, job{[]string{"-corpus", cf, "-shard", fmt.Sprint(i), "-nshard", fmt.Sprint(n)}, "corpus-prefixes"})
 	}
-	r.Bounds = map[string]any{"alphabet_r50_len": lenR50, "alphabet_r30_len": lenR30, "corpus_programs": len(corpus), "final_newline_variants": true}
+	r.Bounds = map[string]any{"alphabet_r50_len": lenR50, "alphabet_r30_len": lenR30, "alphabet_wide65_len": lenWide, "corpus_programs": len(corpus), "final_newline_variants": true}
 
 	total := lexSummary{Findings: map[string]*lexFinding{}, Kinds: map[string]int64{}}
 	var mu sync.Mutex
@@ -110,6 +114,7 @@ func c03(x *ctx) {
 				total.Kinds[k] += v
 			}
 			for k, f := range s.Findings {
+				f.Example = string(f.Raw)
 				t := total.Findings[k]
 				if t == nil {
 					total.Findings[k] = f
@@ -156,6 +161,17 @@ func c03(x *ctx) {
 			rr := x.realStable("default", files, []string{"t.rb"})
 			observed = rr.Stdout
 			ok = strings.Contains(rr.Stdout, "read error")
+		case strings.Contains(sig, "too-many-tokens"):
+			// more tokens than runes: the token stream does not end. The binary either hangs or, when the
+			// analysis gives up on its own, never sees what follows
+			observed = "timeout"
+			ok = x.realHung("default", files, []string{"t.rb"})
+			if !ok {
+				files = map[string]string{"t.rb": f.Example + "\n1.zzq\n"}
+				rr := x.realStable("default", files, []string{"t.rb"})
+				observed = rr.Stdout
+				ok = !strings.Contains(rr.Stdout, "zzq")
+			}
 		case strings.HasPrefix(sig, "unconsumed"):
 			files = map[string]string{"t.rb": f.Example + "\n1.zzq\n"}
 			rr := x.realStable("default", files, []string{"t.rb"})
